@@ -31,7 +31,7 @@ def versionInDomain (c : Config.Config) : Bool :=
   && !caseClash (c.watchers.map (·.name))
   && c.watchers.all (fun w =>
       flagOff w (cp! "singleton") && flagOff w (cp! "on_demand") && flagOff w (cp! "use_sockets")
-      && w.hooks.isEmpty && w.stderr.isEmpty && w.stdout.isEmpty)
+      && w.hooks.isEmpty)
 
 /-- one file: text → the comparable dicts of its watchers -/
 def parseVersion (osenv : Dict Str) (sigTbl : List (Str × Option Nat)) (text : Str) :
